@@ -157,13 +157,31 @@ def reduce_event(c, idx=0):
         pot = potential_for(c["potential"], extent, gpts)
         scan = scan_for(c["scan"], extent)
         positions = np.asarray(scan.get_positions())
-        ctf = abtem.CTF(semiangle_cutoff=cut, energy=ENERGY, **ABERRATIONS[c["aberrations"]])
+        if c.get("ctf_cutoff", "given") == "unset":
+            ctf = abtem.CTF(energy=ENERGY, **ABERRATIONS[c["aberrations"]])          # no aperture stated: the S-matrix' cutoff applies
+        else:
+            ctf = abtem.CTF(semiangle_cutoff=cut, energy=ENERGY, **ABERRATIONS[c["aberrations"]])
         ds = "cutoff" if c["downsample"] else False
+        hist = c.get("history", "fresh")
 
         def smatrix():
+            cut0 = 0.55 * cut if hist == "edited_cutoff" else cut
             if pot is None:
-                return abtem.SMatrix(extent=extent, gpts=gpts, energy=ENERGY, semiangle_cutoff=cut, interpolation=f, downsample=ds)
-            return abtem.SMatrix(potential=pot, energy=ENERGY, semiangle_cutoff=cut, interpolation=f, downsample=ds)
+                S = abtem.SMatrix(extent=extent, gpts=gpts, energy=ENERGY, semiangle_cutoff=cut0, interpolation=f, downsample=ds)
+            elif hist == "edited_potential":
+                from ase import Atoms
+                other = abtem.Potential(Atoms(["Au"], positions=[(2.0, 2.0, 2.0)], cell=(extent[0], extent[1], 4.0), pbc=True), gpts=gpts,
+                                        slice_thickness=2.0, projection="infinite")
+                S = abtem.SMatrix(potential=other, energy=ENERGY, semiangle_cutoff=cut0, interpolation=f, downsample=ds)
+            else:
+                S = abtem.SMatrix(potential=pot, energy=ENERGY, semiangle_cutoff=cut0, interpolation=f, downsample=ds)
+            if hist != "fresh":
+                _ = (len(S), S.shape, np.asarray(S.wave_vectors).shape, S.ensemble_axes_metadata)       # inspect, then edit
+                if hist == "edited_cutoff":
+                    S.semiangle_cutoff = cut
+                else:
+                    S.potential = pot
+            return S
 
         def reduced(lazy, dets=None):
             S = smatrix()
@@ -287,7 +305,7 @@ def tags_for(ev, clauses):
     if ev["k"] == "reduce":
         c = ev["case"]
         return {"clauses": sorted(clauses), "k": "reduce", "interpolated": (c["f1"], c["f2"]) != (1, 1), "aberrated": c["aberrations"] != "none",
-                "scan": c["scan"], "potential": c["potential"], "downsample": c["downsample"]}
+                "scan": c["scan"], "potential": c["potential"], "downsample": c["downsample"], "ctf_cutoff": c.get("ctf_cutoff"), "history": c.get("history")}
     if ev["k"] == "window":
         n = ev["n"]
         far = any(cc[a] >= n[a] or cc[a] < -n[a] for cc in ev["corners"] for a in (0, 1))
@@ -324,6 +342,12 @@ def select(cases, n):
     core, rest, seen = [], [], set()
     for c in cases:
         key = (c["potential"], c["downsample"], c["batch_one"], c["lazy"], (c["f1"], c["f2"]) == (1, 1))
+        key2 = (c.get("ctf_cutoff"), c.get("history"), c["batch_one"], c["lazy"], c["aberrations"] != "none")
+        if key2 not in seen:
+            seen.add(key2)
+            if key in seen:
+                core.append(c)
+                continue
         if key in seen:
             rest.append(c)
         else:
@@ -346,7 +370,7 @@ def run(ctx: Ctx):
     ctx.rule = ("beams: cells (6x6, 6x4.5, 4.5x6 A) x cutoffs x interpolations; windows: array sizes n in {4, 6, 8, 9} with every window "
                 "w = n / f and corners in [-2n-1, 3n+1] (pairs, one batch); reductions: potential {none, atoms, frozen phonons} x 6 aberration "
                 "sets x scans {inside, outside the cell, spanning more than a cell, grid, line} x interpolation (1..3, 1..2) x downsample x "
-                "lazy x batching, enumerated by TLC from Prism.tla; non-trivial = aberrated CTF or interpolation")
+                "lazy x batching x CTF aperture given / unset x S-matrix object fresh / inspected and then edited (cutoff, potential), enumerated by TLC from Prism.tla; non-trivial = aberrated CTF or interpolation")
     ctx.design_check("PrismImpl", cfg_text=IMPL_CFG.format(n=5 if quick else 7), label="PrismImpl=>Prism!WindowIndex", timeout=3000)
     r = ctx.design_check("Prism", "Prism.cfg", label="scenario space", workers=1)
     self_test(ctx)
